@@ -48,7 +48,7 @@ func (q *qcase) args() []string {
 	return append(a, q.flags...)
 }
 
-const wrapper = `ulimit -v 2000000; timeout -s KILL 55 "$0" "$@" | head -c 33554432; exit ${PIPESTATUS[0]}`
+const wrapper = `ulimit -v 6000000; timeout -s KILL 55 "$0" "$@" | head -c 33554432; exit ${PIPESTATUS[0]}`
 
 var modes = []string{"json", "csv", "batch_table", "stream_native", "live_table"}
 
@@ -102,7 +102,11 @@ func Run(c *core.Ctx) core.FinishOpts {
 	if repo == "" {
 		repo = "/repo"
 	}
-	runner := cli.NewRunner(c.BinDir, c.Scratch)
+	binDir := c.BinDir
+	if d := os.Getenv("VERIF_OCTOSQL_BINDIR"); d != "" { // validation aid: judge another build of octosql (e.g. a patched scratch copy)
+		binDir = d
+	}
+	runner := cli.NewRunner(binDir, c.Scratch)
 	dir := runner.NewDir()
 	nScenFix, err := writeFixtures(dir, repo)
 	if err != nil {
@@ -269,6 +273,15 @@ func Run(c *core.Ctx) core.FinishOpts {
 		}
 	}
 
+	if ks := os.Getenv("VERIF_C07_KINDS"); ks != "" { // development aid: run some generator kinds only
+		var keep []*qcase
+		for _, q := range cases {
+			if strings.Contains(","+ks+",", ","+q.kind+",") {
+				keep = append(keep, q)
+			}
+		}
+		cases = keep
+	}
 	if c.Only != "" {
 		var keep []*qcase
 		for _, q := range cases {
@@ -281,7 +294,7 @@ func Run(c *core.Ctx) core.FinishOpts {
 	// duplicates are executed once
 	seenCase := map[string]bool{}
 	bash := "/bin/bash"
-	octosql := filepath.Join(c.BinDir, "octosql")
+	octosql := filepath.Join(binDir, "octosql")
 	core.Parallel(len(cases), 16, func(i int) {
 		q := cases[i]
 		if q.skip != "" {
@@ -294,6 +307,7 @@ func Run(c *core.Ctx) core.FinishOpts {
 		q.res = runner.ExecBin(bash, cli.Run{Args: append([]string{"-c", wrapper, octosql}, q.args()...), Dir: dir, Stdin: stdin})
 	})
 
+	var watchdogCases []string
 	tagSites := map[string]map[string]bool{}
 	siteWitness := map[string]string{}
 	injected := 0
@@ -321,8 +335,12 @@ func Run(c *core.Ctx) core.FinishOpts {
 		case res.TimedOut || res.Exit == 137 || res.Exit == 124:
 			c.Inconclusive("watchdog")
 			c.Count("outcome/watchdog", 1)
+			if len(watchdogCases) < 20 {
+				watchdogCases = append(watchdogCases, strings.Join(trimArgs(q.args()), " | "))
+			}
 			continue
-		case bytes.Contains(stderr, []byte("out of memory")) || bytes.Contains(stderr, []byte("cannot allocate memory")):
+		case bytes.Contains(stderr, []byte("out of memory")) || bytes.Contains(stderr, []byte("cannot allocate memory")) || bytes.Contains(stderr, []byte("pthread_create failed")):
+			// the address-space cap (not octosql) refused an allocation or a thread stack
 			c.Inconclusive("memory-cap")
 			c.Count("outcome/memory-cap", 1)
 			continue
@@ -410,8 +428,11 @@ func Run(c *core.Ctx) core.FinishOpts {
 		sort.Strings(reached[tag])
 	}
 	c.Note("anticipated_sites_reached_by_probes", reached)
+	if len(watchdogCases) > 0 {
+		c.Note("watchdog_cases", watchdogCases)
+	}
 	c.Note("shortest_witness_per_panic_site", siteWitness)
-	c.Note("bounds", "ulimit -v 2000000 KiB, 55 s kill timer, 32 MiB stdout cap per child; range() bounds checked textually; tail=/poll/plugins.* never run")
+	c.Note("bounds", "ulimit -v 6000000 KiB, 55 s kill timer, 32 MiB stdout cap per child; range() bounds checked textually; tail=/poll/plugins.* never run")
 
 	return core.FinishOpts{
 		Level: "exploration",
